@@ -173,7 +173,7 @@ class Options:
         self.tier = tier
         self.seed = seed
         self.max_paths = 64 if tier == "quick" else 512
-        self.timeout_ms = 20000 if tier == "quick" else 90000
+        self.timeout_ms = 10000 if tier == "quick" else 90000
         self.validate_paths = 2 if tier == "quick" else 4
         self.box = (-4, 4)
         self.profile = True
@@ -542,7 +542,7 @@ def decide_case(case, opts):
             # the real code raised on this path although the case did not expect it
             res["obligations"] += 1
             cand = {"label": "exception", "kind": "exception", "detail": pr.error[1], "point": _clean(pr.model)}
-            rep = case.replay(cand) if hasattr(case, "replay") else replay_generic(case, cand, uses_rng)
+            rep = _replay(case, cand, uses_rng)
             if rep[0]:
                 cand["replay"] = rep[1]
                 res["violations"].append(cand)
@@ -565,7 +565,7 @@ def decide_case(case, opts):
         for label, ok, detail in badfacts:
             res["obligations"] += 1
             cand = {"label": label, "kind": "fact", "detail": detail, "point": _clean(pr.model)}
-            rep = replay_generic(case, cand, uses_rng)
+            rep = _replay(case, cand, uses_rng)
             if rep[0]:
                 cand["replay"] = rep[1]
                 res["violations"].append(cand)
@@ -615,7 +615,7 @@ def decide_case(case, opts):
         labels = sorted(set(l for l, _, _, _ in bad))
         cand = {"label": ",".join(labels), "kind": "value", "point": _clean(cand_point),
                 "detail": "; ".join("%s[%d]: code=%.6g expected=%.6g" % b for b in bad[:4])}
-        rep = replay_generic(case, cand, uses_rng)
+        rep = _replay(case, cand, uses_rng)
         if rep[0]:
             cand["replay"] = rep[1]
             res["violations"].append(cand)
@@ -633,6 +633,13 @@ def decide_case(case, opts):
     res["wall_s"] = round(time.time() - t0, 3)
     res["nvars"] = len(CTX.vars)
     return res
+
+
+def _replay(case, cand, uses_rng):
+    rp = getattr(case, "replay", None)
+    if rp is not None:
+        return rp(cand)
+    return replay_generic(case, cand, uses_rng)
 
 
 def hash_sig(s):
